@@ -16,6 +16,29 @@ import (
 // layout and leaves the later ones as they were).  It returns the number of records rewritten.
 // Only the public chain.DB interface and core's encoding helpers are used.
 func RewriteBlocksV2(db chain.DB, requireHeight uint64) (int, error) {
+	return rewriteBlocksV2(db, func(b *types.Block) bool { return b.V2 != nil && b.V2.Height > requireHeight })
+}
+
+// MakePreMigrationDB turns a flushed, current database into what the previous release wrote: every
+// block record that has a body in the version-2 layout, and the version key set to `version`
+// (1, 2 or 3). The next NewDBStore runs the migration (chain/migrate.go): side-chain blocks and
+// the element buckets are dropped and the main chain is recomputed up to the v2 require height.
+func MakePreMigrationDB(db chain.DB, version byte) (int, error) {
+	n, err := rewriteBlocksV2(db, func(*types.Block) bool { return true })
+	if err != nil {
+		return 0, err
+	}
+	vb := db.Bucket([]byte("Version"))
+	if vb == nil {
+		return 0, fmt.Errorf("no Version bucket")
+	}
+	if err := vb.Put([]byte("Version"), []byte{version}); err != nil {
+		return 0, err
+	}
+	return n, db.Flush()
+}
+
+func rewriteBlocksV2(db chain.DB, which func(*types.Block) bool) (int, error) {
 	bucket := db.Bucket([]byte("Blocks"))
 	if bucket == nil {
 		return 0, fmt.Errorf("no Blocks bucket")
@@ -33,7 +56,7 @@ func RewriteBlocksV2(db chain.DB, requireHeight uint64) (int, error) {
 		types.DecodePtr(d, &bh)
 		types.DecodePtrCast[types.V2Block](d, &b)
 		types.DecodePtr(d, &bs)
-		if d.Err() != nil || b == nil || b.V2 == nil || b.V2.Height <= requireHeight {
+		if d.Err() != nil || b == nil || !which(b) {
 			continue
 		}
 		var buf bytes.Buffer
